@@ -184,9 +184,21 @@ def build_roots(roots, types=DEFAULT_TYPES, dkr=None, dkf=None, merge="default")
     return b
 
 
+MAX_TEXT = 3_000_000
+
+
+class OutputExplosion(RuntimeError):
+    pass
+
+
 def render(reg, framework="pydantic", layout="flat", preamble=None, **gen_kwargs):
     structure = LAYOUTS[layout](reg.models_map)
-    return generate_code(structure, FRAMEWORKS[framework], class_generator_kwargs=gen_kwargs, preamble=preamble)
+    text = generate_code(structure, FRAMEWORKS[framework], class_generator_kwargs=gen_kwargs, preamble=preamble)
+    if len(text) > MAX_TEXT and len(text) > 2000 * max(1, len(reg.models_map)):
+        # no explored input has more than a few dozen small models: a text of megabytes means that something accumulates from
+        # rendering to rendering (and the next one would be larger still)
+        raise OutputExplosion(f"generated text has {len(text)} characters for {len(reg.models_map)} models")
+    return text
 
 
 def gen_kwargs_for(framework, converters=False, meta=False, unicode=True, max_literals=None):
